@@ -285,10 +285,17 @@ func genShapes(r *vlib.Rand, strs *[]string, us *untypedStats) *EvShapes {
 
 // genUntypedJSONVal returns a value of the second part of the JSON family and what it holds in untyped slots.
 func genUntypedJSONVal(r *vlib.Rand) (val, untypedStats) {
+	k := r.Intn(10)
+	v, us := genUntypedJSONValK(r, k)
+	v.again = func(r *vlib.Rand) val { w, _ := genUntypedJSONValK(r, k); return w }
+	return v, us
+}
+
+func genUntypedJSONValK(r *vlib.Rand, k int) (val, untypedStats) {
 	var strs []string
 	var us untypedStats
 	var v val
-	switch r.Intn(10) {
+	switch k {
 	case 0, 1, 2, 3:
 		l := genLoose(r, 2, &strs, &us)
 		v = jsonVal(l, strs...)
